@@ -53,6 +53,9 @@ func NewLattice(s *vs.Stream) Lattice {
 	sides := []int{4, 6, 8, 12, 16}
 	units := []float64{1, 2, 8, 64, 0.5, 0.125}
 	l := Lattice{Side: sides[s.Intn(len(sides), "lat/side")], Unit: units[s.Intn(len(units), "lat/unit")]}
+	for float64(l.Side)*l.Unit*3.25 > 1024 {
+		l.Unit /= 2 // multipolygon members are shifted by up to 2*Side+2 cells: stay within |c| <= 2^10
+	}
 	span := float64(l.Side) * l.Unit
 	if s.Intn(2, "lat/off") == 1 {
 		l.OffX = -math.Floor(span/2/l.Unit) * l.Unit
@@ -114,6 +117,9 @@ type Cfg struct {
 	Invalid   bool // allow constructions that violate OGC validity
 	Alloc     func(n int) []float64
 	ForceType int // 0 = draw; otherwise 1+geom.GeometryType
+	// Jitter > 0 moves every vertex off the lattice by a seeded amount of up
+	// to Jitter lattice units in each direction: the general-position class.
+	Jitter float64
 }
 
 func (c *Cfg) alloc(n int) []float64 {
@@ -154,13 +160,24 @@ func (g *Gen) zm() float64 {
 	return float64(s.Intn(41, "zm") - 20)
 }
 
+func (g *Gen) jit() float64 {
+	if g.Cfg.Jitter <= 0 {
+		return 0
+	}
+	return (float64(g.S.Intn(1<<20, "jit"))/float64(1<<20) - 0.5) * 2 * g.Cfg.Jitter * g.Lat.Unit
+}
+
 // seq builds a Sequence from lattice points.
 func (g *Gen) seq(pts [][2]int) geom.Sequence {
 	d := g.CT.Dimension()
 	fs := g.Cfg.alloc(len(pts) * d)
 	for i, p := range pts {
-		fs[i*d] = g.Lat.X(p[0])
-		fs[i*d+1] = g.Lat.Y(p[1])
+		if g.Cfg.Jitter > 0 && i > 0 && i == len(pts)-1 && p == pts[0] {
+			copy(fs[i*d:i*d+2], fs[0:2]) // closing vertex of a ring: same floats as the first
+		} else {
+			fs[i*d] = g.Lat.X(p[0]) + g.jit()
+			fs[i*d+1] = g.Lat.Y(p[1]) + g.jit()
+		}
 		for k := 2; k < d; k++ {
 			fs[i*d+k] = g.zm()
 		}
@@ -177,7 +194,7 @@ func (g *Gen) point() geom.Point {
 		return geom.NewEmptyPoint(g.CT)
 	}
 	p := g.pt()
-	c := geom.Coordinates{Type: g.CT, XY: geom.XY{X: g.Lat.X(p[0]), Y: g.Lat.Y(p[1])}}
+	c := geom.Coordinates{Type: g.CT, XY: geom.XY{X: g.Lat.X(p[0]) + g.jit(), Y: g.Lat.Y(p[1]) + g.jit()}}
 	if g.CT.Is3D() {
 		c.Z = g.zm()
 	}
